@@ -273,6 +273,19 @@ def run(ck):
         if r["name"] in pins and pins[r["name"]] != r["sig"]:
             ck.report("rule-text-changed:" + r["name"], "rule %s has no Lean statement (not translatable) and its definition changed: was `%s`, is `%s`" % (r["name"], pins[r["name"]], r["sig"]),
                       replay={"rule": r["name"], "was": pins[r["name"]], "is": r["sig"]}, found_input=False)
+    # the side conditions and appliers are translated by NAME (condition dictionary): the text of
+    # the Rust functions behind the names is pinned, so that an edit is at least reported
+    import c17 as _c17
+    cpins = json.load(open(os.path.join(vlib.VERIF, "checks", "c01_condition_pins.json")))
+    for key, was in cpins.items():
+        base, fn = key.split(":")
+        try:
+            now = _c17.fn_text(os.path.join(vlib.REPO, "src/planner/rules", base), fn)
+        except (ValueError, OSError):
+            now = "<not found>"
+        if now != was:
+            ck.report("condition-source-changed:" + fn, "`%s` (src/planner/rules/%s) is a side condition / applier the translator reads by name, and its definition changed: the statements no longer follow it" % (fn, base),
+                      replay={"function": key, "was": was, "is": now}, found_input=False)
     # a rule nobody knows about (new in the source): neither translated-and-proved nor listed
     for r in other_rules:
         if r["name"] not in KNOWN_UNTRANSLATABLE:
